@@ -38,7 +38,7 @@ LEAN_MODULES = {
     "C09": ["TFV.Properties.Tree", "TFV.Properties.TreeCR", "TFV.Properties.Src.TreeIdx", "TFV.Properties.Src.CommonRegion", "TFV.Properties.Src.TreeMethods",
             "TFV.Properties.Src.StandardX", "TFV.Properties.Src.OnePointGP"],
     "C10": ["TFV.Properties.Gray", "TFV.Properties.Src.GrayKernels"],
-    "C11": ["TFV.Properties.Select", "TFV.Properties.Src.Bsearch", "TFV.Properties.Src.Tournament", "TFV.Properties.Src.Sampling"],
+    "C11": ["TFV.Properties.Select", "TFV.Properties.Src.Bsearch", "TFV.Properties.Src.Tournament", "TFV.Properties.Src.Sampling", "TFV.Properties.Src.MinMax"],
     "C12": ["TFV.Properties.Net"],
     "C13": ["TFV.Properties.Net", "TFV.Properties.Gray"],
     "C14": ["TFV.Properties.SelfConf", "TFV.Properties.Src.SelfCGAAdapt", "TFV.Properties.Src.PdpgaTrial", "TFV.Properties.Src.GATrial", "TFV.Properties.Src.GPTrial", "TFV.Properties.Src.PdpgaAdapt"],
@@ -71,7 +71,7 @@ SRC_KERNELS = {
     "C09": ["find_end_subtree_from_i", "find_id_args_from_i", "find_first_difference_between_two", "common_region_two_trees",
             "Tree_subtree_id", "Tree_subtree", "Tree_concat", "get_levels_tree_from_i", "Tree_get_levels", "Tree_get_max_level",
             "standard_crossover", "Tree_get_common_region", "one_point_crossoverGP"],
-    "C11": ["binary_search_interval", "check_for_value", "argsort_k", "tournament_selection", "proportional_selection", "rank_selection", "sattolo_shuffle", "random_sample", "random_weighted_sample"],
+    "C11": ["binary_search_interval", "check_for_value", "argsort_k", "tournament_selection", "proportional_selection", "rank_selection", "sattolo_shuffle", "random_sample", "random_weighted_sample", "Select_minmax_scale"],
     "C14": ["SelfCGA_adapt", "PDPGA_adapt", "PDPGA_get_new_individ_g", "PDPGP_get_new_individ_g", "GA_get_new_individ_g", "GP_get_new_individ_g"],
     "C15": ["SHADE_generate_F_CR", "SHADE_update_u_F", "DE_greedy_replacement", "jDE_greedy_replacement", "SHADE_bookkeeping", "SHAGA_bookkeeping", "jDE_get_mutate_F", "jDE_get_mutate_CR"],
     "C16": ["get_n_jobs", "EA_split_population"],
